@@ -21,6 +21,8 @@ Necessary structural conditions (the digit-level exactness of the string scanner
       string→number conversion) only;
   K6  the shared string→number conversion behind the Number-style family has the
       ECMAScript structure and never exposes Rust's float grammar (as C07 K4);
+  K7  the string form through which containers are converted ("[3] is 3") has the
+      per-kind structure of C16 K4 (a number contributes its JSON text);
   K5  a non-numeric operand is an error: every conversion result is turned into
       Err at the conversion site (ok_or_else / None-edge return Err); none is
       consumed by unwrap_or*, filter_map, flatten or a defaulting arm.
@@ -43,6 +45,8 @@ def run(ctx):
     ctx.explanation = __doc__
     ctx.rule = "instances = facts of the result conversion, 7 operators × (return path, operation, routing, error discipline); non-trivial = dominance, constant reading, reach scans"
     ctx.trusted = ["IEEE-754 semantics of MIR float BinaryOps", "serde_json::Number::from_f64 returns None exactly for non-finite input", "Rust's decimal float parser is correctly rounded"]
+    from . import manifest as _MF
+    _MF.same_library_clause(ctx, "K1.number-model")
     cfgs = ["default"] if ctx.tier == "quick" else ["default", "python", "wasm"]
     for cfg in cfgs:
         facts = ctx.facts(cfg)
@@ -53,6 +57,10 @@ def run(ctx):
         tnv = conv[0]
         k1(ctx, facts, tnv, cfg)
         s2n = strnum.check(ctx, facts, cfg, clause="K6")
+        # containers reach both conversion families through the shared string form ("[3] is 3"): its per-kind
+        # structure — numbers as their JSON text, elements joined with "," — is part of the arithmetic's input
+        from .c16 import string_form_clauses, to_string_role
+        string_form_clauses(ctx, facts, roles, to_string_role(facts), cfg, K="K7")
         convs = [b for b in facts.fns() if b.kind == "fn" and items.get(b.key, {}).get("inputs") == ["&serde_json::Value"] and items[b.key].get("output") == "std::option::Option<f64>"]
         number_style = [b for b in convs if s2n.key in facts.reach([b.key]) and any(callee_of(t) and callee_of(t)["local"] for _, t in b.calls())]
         float_style = [b for b in convs if s2n.key not in facts.reach([b.key]) and any(callee_of(t) and callee_of(t)["local"] for _, t in b.calls())]
